@@ -22,7 +22,7 @@ theorem bankSend_total {s s' : State} {a b : Nat} {x : Int} (h : bankSend s a b 
 theorem useGrant_bal {s s' : State} {g e k : Nat} {x : Int} (h : useGrant s g e k x = some s') : s'.bal = s.bal := by
   unfold useGrant at h
   simp only [bind, Option.bind_eq_some_iff, pure, Option.some.injEq] at h
-  obtain ⟨_, _, _, _, _, _, rfl⟩ := h
+  obtain ⟨_, _, _, _, _, _, _, _, rfl⟩ := h
   split <;> rfl
 
 theorem useGrant_total {s s' : State} {g e k : Nat} {x : Int} (h : useGrant s g e k x = some s') : s'.total = s.total := by
